@@ -918,7 +918,7 @@ def presentOf (p : Params) (icc inverse : Bool) : Present :=
 /-- the shared frame loop equals reading every frame with its own transform, for uniformly placed groups -/
 theorem getWith_eq {ρ μ ω β} (im : Meta ρ μ ω) (useRw useMod useVoi : Bool) (apply : Found ρ μ ω → Nat → β)
     (n f0 : Nat) (fs : List Nat) (h0 : f0 < n) (hfs : ∀ f ∈ fs, f < n)
-    (h1 : Uniform im.rwvm n) (h2 : Uniform im.rescale n) (h3 : Uniform im.window n) :
+    (h1 : Uniform im.rwvm n) (h2 : Uniform im.rescale n) (h3 : Uniform im.voi n) :
     getWith im useRw useMod useVoi apply f0 fs = fs.map (getFrame im useRw useMod useVoi apply) := by
   unfold getWith getFrame
   simp only []
